@@ -39,7 +39,10 @@ def _state(kind, nv=2, nh=3, na=1, custom=False):
     from drivers import common as DC
     from qucumber.utils import unitaries
     ud = None
-    if custom and kind != "positive":
+    if custom == "partial" and kind != "positive":
+        # a user dictionary that is NOT a superset of the defaults, with a single-precision entry
+        ud = {"Z": unitaries.create_dict()["Z"], "H": (torch.tensor([[[1., 1.], [1., -1.]], [[0., 0.], [0., 0.]]]) / np.sqrt(2)).float()}
+    elif custom and kind != "positive":
         ud = unitaries.create_dict(H=torch.tensor([[[1., 1.], [1., -1.]], [[0., 0.], [0., 0.]]]) / np.sqrt(2))
     st = DC.make_state(kind, nv, nh, na, unitary_dict=ud)
     DC.randomize(st, np.random.default_rng(3), 1.0)
@@ -107,9 +110,18 @@ def _save(ctx, cfg):
         ctx.holds("save/state's unitary dictionary untouched[%s]" % kind, set(st.unitary_dict.keys()) == set(ud_before.keys()) and all(st.unitary_dict[k] is ud_before[k] for k in ud_before))
 
 
+def _same_dict(a, b):
+    return set(a.keys()) == set(b.keys()) and all(a[k].dtype == b[k].dtype and torch.equal(a[k], b[k]) for k in b)
+
+
 def _load(ctx, cfg):
+    for custom in (True, "partial"):
+        _load1(ctx, cfg, custom)
+
+
+def _load1(ctx, cfg, custom):
     kind = cfg["kind"]
-    src = _state(kind, custom=True)
+    src = _state(kind, custom=custom)
     dst = _state(kind, custom=False)
     from drivers import common as DC
     DC.randomize(dst, np.random.default_rng(11), 2.0)
@@ -131,8 +143,8 @@ def _load(ctx, cfg):
         a, b = getattr(src, n), getattr(dst, n)
         ctx.holds("load/%s parameters bit-identical to the file[%s]" % (n, kind), all(torch.equal(p.detach(), dict(a.named_parameters())[k].detach()) for k, p in b.named_parameters()))
     if hasattr(src, "unitary_dict"):
-        ctx.holds("load/unitary dictionary restored (incl. added unitaries)[%s]" % kind, dst.unitary_dict is file["unitary_dict"] or
-                  (set(dst.unitary_dict.keys()) == set(src.unitary_dict.keys()) and all(torch.equal(dst.unitary_dict[k], src.unitary_dict[k]) for k in src.unitary_dict)))
+        ctx.holds("load/unitary dictionary restored: exactly the saved entries (added unitaries kept, nothing added or converted)[%s custom=%s]" % (kind, custom),
+                  dst.unitary_dict is file["unitary_dict"] or _same_dict(dst.unitary_dict, src.unitary_dict), str(sorted(dst.unitary_dict.keys())))
         f2 = {k: v for k, v in file.items() if k != "unitary_dict"}
         keep = dst.unitary_dict
         with mock.patch.object(torch, "load", lambda loc, map_location=None, **k: f2):
@@ -144,8 +156,8 @@ def _autoload(ctx, cfg):
     kind = cfg["kind"]
     ctx.under_contract("%s.autoload" % {"positive": "PositiveWaveFunction", "complex": "ComplexWaveFunction", "mixed": "DensityMatrix"}[kind])
     ctx.stub("torch.load")
-    for (nv, nh, na) in ((2, 3, 1), (3, 1, 2), (1, 1, 1), (2, 2, 2)):
-        src = _state(kind, nv, nh, na, custom=True)
+    for (nv, nh, na), custom in (((2, 3, 1), True), ((3, 1, 2), "partial"), ((1, 1, 1), True), ((2, 2, 2), "partial")):
+        src = _state(kind, nv, nh, na, custom=custom)
         file = {n: copy.deepcopy(getattr(src, n).state_dict()) for n in src.networks}
         if hasattr(src, "unitary_dict"):
             file["unitary_dict"] = src.unitary_dict
@@ -161,8 +173,8 @@ def _autoload(ctx, cfg):
         same = all(torch.equal(p.detach(), dict(getattr(src, n).named_parameters())[k].detach()) for n in src.networks for k, p in getattr(new, n).named_parameters())
         ctx.holds("autoload/parameters bit-identical for every network" + t, same)
         if hasattr(src, "unitary_dict"):
-            ctx.holds("autoload/unitary dictionary incl. added unitaries" + t, set(new.unitary_dict.keys()) == set(src.unitary_dict.keys())
-                      and all(torch.equal(new.unitary_dict[k], src.unitary_dict[k]) for k in src.unitary_dict))
+            ctx.holds("autoload/unitary dictionary: exactly the saved entries (added unitaries kept, nothing added or converted)" + t,
+                      _same_dict(new.unitary_dict, src.unitary_dict), str(sorted(new.unitary_dict.keys())))
         ctx.holds("autoload/independent of the source object" + t, all(p.data_ptr() != dict(getattr(src, n).named_parameters())[k].data_ptr()
                                                                       for n in src.networks for k, p in getattr(new, n).named_parameters()))
 
